@@ -139,8 +139,8 @@ InvPtr == (Done /\ r.disp = "slow" /\ r.st = PP /\ r.code \in {CInvalidMAC, CPat
 \* ---------------------------------------------------------------- generator
 NearMiss == ~Passed(r) /\ r.why \in CheckNames /\ Passed(StepSk(Cfg, p, {r.why}))
 AlertAnswer == r.disp = "slow" /\ r.st \in {ALERTIN, ALERTEG}
-Emit == (Done /\ (Passed(r) \/ AlertAnswer \/ NearMiss)) =>
-          PrintT(<<"SCN", ToJson([p |-> p, m |-> [disp |-> r.disp, why |-> r.why, nm |-> ~Passed(r) /\ ~AlertAnswer]])>>)
+Emit == (Done /\ (p.kind = "ohp" \/ Passed(r) \/ AlertAnswer \/ NearMiss)) =>   \* the one-hop table is small: all of it
+          PrintT(<<"SCN", ToJson([p |-> p, m |-> [disp |-> r.disp, why |-> r.why, nm |-> ~Passed(r) /\ ~AlertAnswer /\ p.kind # "ohp"]])>>)
 
 \* ---------------------------------------------------------------- configurations
 FixAll == [d3 |-> TRUE, d9 |-> TRUE, d12 |-> TRUE, d13 |-> TRUE]
